@@ -55,6 +55,7 @@ type World struct {
 	privMapMemo map[ssa.Value]bool
 	stableFams map[string]*stableDecl
 	cg *callgraph.Graph
+	paramFresh map[*ssa.Function]bool
 }
 
 type contractErr struct{ file, msg, raw string }
